@@ -15,6 +15,7 @@ import (
 	"path/filepath"
 	"sort"
 	"strings"
+	"time"
 
 	"github.com/notaryproject/notation-go/dir"
 	"github.com/notaryproject/notation-go/plugin"
@@ -84,11 +85,11 @@ type inst struct {
 }
 
 var shapes = []string{"file", "file", "dir", "dir-nonexec", "dir-extra-before", "dir-extra-after", "dir-nonexec-extra-after", "dir-nonexec-extra-before", "dir-subdir", "dir-subdir-before",
-	"dir-subdir-samename", "dir-symlink-extra", "dir-two", "dir-two-nonexec", "dir-no-candidate", "badmeta", "misnamed", "file-nonexec", "dir-badmeta", "file-via-symlink", "file-via-symlink"}
+	"dir-subdir-samename", "dir-symlink-extra", "dir-two", "dir-two-nonexec", "dir-no-candidate", "badmeta", "misnamed", "file-nonexec", "dir-badmeta", "file-via-symlink", "file-via-symlink", "misnamed-case"}
 
 func main() {
 	r := lib.Start("C20", "exploration")
-	r.Rule = "PRNG sequences of up to 6 install/uninstall operations over 2 plugin names x 23 versions (17 in precedence order incl. pre-release/build metadata/numeric-vs-lexical traps, 6 invalid) x overwrite x 20 source shapes (file; symbolic link to the file; directory with executable / single non-executable candidate, extra files sorting before and after, sub-directories incl. one holding a same-named executable, symlink, two candidates, none; invalid / misnamed metadata; non-executable file); distinct by (sequence, step); non-trivial = install onto an existing plugin, or from a directory source"
+	r.Rule = "PRNG sequences of up to 6 install/uninstall operations over 2 plugin names x 23 versions (17 in precedence order incl. pre-release/build metadata/numeric-vs-lexical traps, 6 invalid) x overwrite x 21 source shapes (file; file whose name differs from the reported name in letter case only; symbolic link to the file; directory with executable / single non-executable candidate, extra files sorting before and after, sub-directories incl. one holding a same-named executable, symlink, two candidates, none; invalid / misnamed metadata; non-executable file); distinct by (sequence, step); non-trivial = install onto an existing plugin, or from a directory source"
 	r.Assumptions = []string{"plugins are /bin/sh scripts printing embedded metadata (benign names only)",
 		"first-time installation of a plugin whose version is not a semantic version is not judged (nothing is replaced)",
 		"expected mode of an installed file = source mode & 0755; a single non-executable candidate gets its user-execute bit set first (documented behaviour)"}
@@ -150,12 +151,19 @@ func runSequence(ctx context.Context, r *lib.Run, seq int, pending *[]func()) (b
 				// damage the installed plugin behind the manager's back: a malfunctioning executable, or a left-over
 				// directory without executable (e.g. an interrupted installation), plus a stray old file
 				exe := filepath.Join(root, name, "notation-"+name)
-				if rng.Bool() {
+				switch rng.Intn(3) {
+				case 0:
 					in.damaged = "broken-exe"
 					os.WriteFile(exe, []byte("#!/bin/sh\nexit 1\n"), 0o755)
-				} else {
+				case 1:
 					in.damaged = "missing-exe"
 					os.Remove(exe)
+				default:
+					// an installed plugin that hangs: the next installation runs under a context with a deadline, which expires
+					// while the OLD plugin is asked for its version - wherever the call then stops, the plugin directory
+					// holds the old plugin or the new one, never neither
+					in.damaged = "hanging-exe"
+					os.WriteFile(exe, []byte("#!/bin/sh\nexec sleep 4\n"), 0o755)
 				}
 				os.WriteFile(filepath.Join(root, name, "old-lib-from-previous-version.so"), []byte("stale"), 0o644)
 				in.files = map[string]finfo{}
@@ -213,6 +221,11 @@ func runSequence(ctx context.Context, r *lib.Run, seq int, pending *[]func()) (b
 				switch shape {
 				case "file", "badmeta", "misnamed":
 					path = exe
+				case "misnamed-case":
+					// the file is notation-Foo, the process says it is "foo": another name (names are compared exactly)
+					cased := filepath.Join(src, "notation-"+strings.ToUpper(name[:1])+name[1:])
+					os.Rename(exe, cased)
+					path = cased
 				case "file-nonexec":
 					path, usable = exe, false
 				case "file-via-symlink":
@@ -252,7 +265,7 @@ func runSequence(ctx context.Context, r *lib.Run, seq int, pending *[]func()) (b
 					os.WriteFile(filepath.Join(src, "plugin.sh"), content, 0o755)
 					usable = false
 				}
-				metaOK := shape != "badmeta" && shape != "dir-badmeta" && shape != "misnamed"
+				metaOK := shape != "badmeta" && shape != "dir-badmeta" && shape != "misnamed" && shape != "misnamed-case"
 				ex := model[name]
 				want, judged := usable && metaOK, true
 				why := "fresh install"
@@ -264,6 +277,8 @@ func runSequence(ctx context.Context, r *lib.Run, seq int, pending *[]func()) (b
 					if v.rank < 0 {
 						judged = false
 					}
+				case ex.damaged == "hanging-exe":
+					judged = false // either outcome is legitimate under an expiring context; the state checks below still apply
 				case ex.damaged == "broken-exe" && !overwrite:
 					want, why = false, "installed plugin is malfunctioning and overwrite is not requested"
 				case ex.damaged == "broken-exe":
@@ -278,7 +293,14 @@ func runSequence(ctx context.Context, r *lib.Run, seq int, pending *[]func()) (b
 					why = "new version strictly higher"
 				}
 				before := snap(root)
-				_, newMD, err := mgr.Install(ctx, plugin.CLIInstallOptions{PluginPath: path, Overwrite: overwrite})
+				ictx := ctx
+				if ex != nil && ex.damaged == "hanging-exe" {
+					var cancel context.CancelFunc
+					ictx, cancel = context.WithTimeout(ctx, 700*time.Millisecond)
+					defer cancel()
+					q(func() { r.Event("installs-under-an-expiring-context") })
+				}
+				_, newMD, err := mgr.Install(ictx, plugin.CLIInstallOptions{PluginPath: path, Overwrite: overwrite})
 				if isBusy(err) {
 					return true
 				}
@@ -298,7 +320,7 @@ func runSequence(ctx context.Context, r *lib.Run, seq int, pending *[]func()) (b
 				q(func() { r.Event("installs") })
 				extra := map[string]any{"shape": shape, "version": v.s, "existing": exv, "overwrite": overwrite, "model_install": want, "model_reason": why}
 				if !judged {
-					q(func() { r.Event("not-judged-first-install-invalid-version") })
+					q(func() { r.Event("not-judged-first-install-invalid-version-or-expiring-context") })
 					if err == nil {
 						model[name] = &inst{version: v, files: expect}
 					}
